@@ -1005,6 +1005,23 @@ def cases(tier, rng):
         yield "deep-json", ["json", iface, 0, "application/json", b'{"a":[' * 60000 + b"1" + b"]}" * 60000]
         many = b"".join(b"--XyZ\r\nContent-Disposition: form-data; name=\"f%d\"\r\n\r\n%d\r\n" % (i, i) for i in range(330)) + b"--XyZ--\r\n"
         yield "many-parts", ["form", iface, 0, "multipart/form-data; boundary=XyZ", many]
+        # volume: a client may send any NUMBER of fields, cookies, media ranges, array items (count limits of the stdlib
+        # parsers, e.g. parse_qsl(max_num_fields=...), raise ValueError when exceeded)
+        for n in (1000, 1001, 5000):
+            fields = b"&".join(b"k%d=v%d" % (i, i) for i in range(n))
+            yield "many-fields", ["form", iface, 0, "application/x-www-form-urlencoded", fields]
+            yield "many-fields", ["form", iface, 0, "application/x-www-form-urlencoded; charset=latin-1", fields.replace(b"&", b";", 3)]
+            yield "many-fields", ["query", iface, fields]
+            yield "many-fields", ["url", iface, "", "/p", fields, None]
+        yield "many-fields", ["form", iface, 0, "application/x-www-form-urlencoded", b"&" * 20000]
+        yield "many-fields", ["form", iface, 0, "application/x-www-form-urlencoded", b"a=1&" * 3000]
+        yield "many-cookies", ["cookies", iface, "; ".join("c%d=%d" % (i, i) for i in range(3000))]
+        yield "many-cookies", ["cookies", iface, ";" * 5000]
+        yield "many-accept", ["accept", iface, ", ".join("text/x%d;q=0.%d" % (i, i % 10) for i in range(2000)), "text/x1999"]
+        yield "many-accept", ["accept", iface, "," * 5000, "text/html"]
+        yield "many-items", ["json", iface, 0, "application/json", b"[" + b"1," * 100000 + b"1]"]
+        yield "many-items", ["json", iface, 0, "application/json", b"{" + b",".join(b'"k%d":%d' % (i, i) for i in range(20000)) + b"}"]
+        yield "many-ranges", ["range", "bytes=" + ",".join("%d-%d" % (2 * i, 2 * i) for i in range(3000)), 10000]
 
 
 def search_cases(tier, rng, mism):
